@@ -374,7 +374,42 @@ def gen_ext(rng):
     return ('btcdeb', 'cli:ext', args + ['[' + body + ']'], b'', 'ptyin', None)
 
 
-GENS = [(gen_btcc, 2), (gen_btcdeb_cli, 4), (gen_repl, 3), (gen_tap, 2), (gen_ext, 1)]
+def expand_stdin(spec):
+    """stdin given as a recipe [prefix, repeated unit, count, suffix] (inputs of many megabytes are not stored in witnesses)"""
+    return spec[0].encode('latin1') + spec[1].encode('latin1') * spec[2] + spec[3].encode('latin1')
+
+
+def gen_huge_token(rng):
+    """a script on stdin that is one token of many megabytes - more than the stack of the process could hold if a function kept a
+    copy of it in a local array: digits only, a number followed by hex digits, hex only, inside brackets, as function argument"""
+    n = rng.choice([300000, 2000000, 8400000, 9000000, 12000000])
+    pre, unit, suf = rng.choice([('1', 'a', ''), ('', '1', ''), ('-5', 'f', ''), ('0x', 'ab', ''), ('[1', 'a', ']'), ('[', '7', ']'), ('sha256(1', 'a', ')'), ('OP_1 9', 'b', ' OP_2'), ('', 'OP_1 ', '')])
+    spec = [pre, unit, n // len(unit), suf + '\n']
+    return ('btcdeb', 'huge-token', [], spec, 'pipe', None)
+
+
+def gen_verify_sig(rng):
+    """the signature-verification transforms on every shape of public key (x-only, compressed, uncompressed, hybrid prefixes,
+    wrong lengths) and signature (Schnorr, DER, compact), inline in btcc / btcdeb scripts and through `tf`"""
+    sk = rng.randrange(1, secp.n)
+    unc = secp.pub_from_sec(sk, compressed=False)
+    x, y = unc[1:33], unc[33:]
+    P = (int.from_bytes(x, 'big'), int.from_bytes(y, 'big'))
+    msg = rb(rng, 32)
+    key = rng.choice([bytes([2 + (P[1] & 1)]) + x, b'\x04' + x + y, bytes([6 + (P[1] & 1)]) + x + y, x, b'\x02' + rb(rng, 32), b'\x04' + rb(rng, 64), b'\x03' + x[:31], b'\x02' + x + b'\x00', b''])
+    sig = rng.choice([rsign.sign_ecdsa(sk, msg, 1)[:-1], bytes.fromhex('3006020101020101'), rsign.sign_schnorr(sk, msg, 0), rb(rng, 64), rb(rng, 65), b'\x30' + rb(rng, 8), b''])
+    fn = rng.choice(['verify_sig', 'verify_sig', 'verify_sig_compact'])
+    expr = '%s([%s])' % (fn, ' '.join('0x' + v.hex() for v in (msg, key, sig)))
+    r = rng.random()
+    if r < 0.45:
+        return ('btcc', 'verify-sig', rng.choice([[expr], ['OP_1', '[%s]' % expr], [expr, 'OP_VERIFY']]), b'', 'pipe', None)
+    if r < 0.75:
+        return ('btcdeb', 'verify-sig', ['[%s]' % expr] if rng.random() < 0.5 else [], b'' if False else ('[%s]\n' % expr).encode(), rng.choice(['pipe', 'ptyout']), None)
+    tfn = fn.replace('_', '-')
+    return ('btcdeb', 'verify-sig', ['OP_1'], ('tf %s 0x%s 0x%s 0x%s\n' % (tfn, msg.hex(), key.hex(), sig.hex())).encode(), 'repl', None)
+
+
+GENS = [(gen_btcc, 8), (gen_btcdeb_cli, 16), (gen_repl, 12), (gen_tap, 8), (gen_ext, 4), (gen_verify_sig, 2), (gen_huge_token, 1)]
 
 
 def line_editor_safe(stdin, mode):
@@ -398,7 +433,8 @@ def worker(job):
             g = rng.choice(pool)
             try:
                 tool, kind, args, stdin, mode, env = g(rng)
-                stdin = line_editor_safe(stdin, mode)
+                spec = stdin if isinstance(stdin, list) else None
+                stdin = line_editor_safe(expand_stdin(spec) if spec else stdin, mode)
             except Exception as e:
                 part.inconc('generator:%s' % type(e).__name__)
                 continue
@@ -406,7 +442,14 @@ def worker(job):
                 continue
             sub = os.path.join(wd, 'r%d' % i)
             os.makedirs(sub, exist_ok=True)
-            r = proc.run([os.path.join(bindir, tool)] + args, sub, stdin=stdin, mode=mode, timeout=40, extra_env=env)
+            history = None
+            if tool == 'btcdeb' and mode in ('pty', 'repl') and rng.random() < 0.15:
+                # fault injection: the interactive loop appends every command to ./.btcdeb_history - here that file cannot be opened
+                # (the name is taken by a directory; works for root too, unlike a read-only directory)
+                os.makedirs(os.path.join(sub, '.btcdeb_history'), exist_ok=True)
+                history = 'cannot-be-opened'
+                part.count('fault_injection', 'history-file-cannot-be-opened')
+            r = proc.run([os.path.join(bindir, tool)] + args, sub, stdin=stdin, mode=mode, timeout=40 if not spec else 300, extra_env=env)
             shutil.rmtree(sub, ignore_errors=True)
             part.evaluations += 1
             part.count('tool', tool + '/' + kind.split(':')[0])
@@ -416,9 +459,9 @@ def worker(job):
                 continue
             if r.abnormal:
                 key = r.crash_key(tool)
-                part.violation(key, dict(tool=tool, kind=kind, argv=list(args), stdin=stdin.decode('latin1')[:400000], mode=mode, run={k: v for k, v in r.brief().items() if k in ('rc', 'sig', 'timeout', 'stderr', 'sanlog')}))
+                part.violation(key, dict(tool=tool, kind=kind, argv=list(args), stdin=stdin.decode('latin1')[:400000] if not spec else '', stdin_recipe=spec, history_file=history, mode=mode, run={k: v for k, v in r.brief().items() if k in ('rc', 'sig', 'timeout', 'stderr', 'sanlog')}))
                 continue
-            part.nontrivial.add(nt_hash(tool, tuple(args), stdin, mode))
+            part.nontrivial.add(nt_hash(tool, tuple(args), stdin if not spec else repr(spec).encode(), mode))
             part.sample(dict(tool=tool, kind=kind, argv=[a[:80] for a in args[:6]], mode=mode, exit=r.rc), limit=1)
     finally:
         cleanup_scratch(wd)
@@ -616,7 +659,9 @@ def main():
             print(json.dumps({k: v for k, v in w.items() if k != 'run'}, indent=1)[:3000])
             if w.get('tool'):
                 wd = scratch('c15r')
-                r = proc.run([os.path.join(bindir, w['tool'])] + w['argv'], wd, stdin=w.get('stdin', '').encode('latin1'), mode=w.get('mode', 'pipe'), timeout=40)
+                if w.get('history_file'):
+                    os.makedirs(os.path.join(wd, '.btcdeb_history'), exist_ok=True)
+                r = proc.run([os.path.join(bindir, w['tool'])] + w['argv'], wd, stdin=expand_stdin(w['stdin_recipe']) if w.get('stdin_recipe') else w.get('stdin', '').encode('latin1'), mode=w.get('mode', 'pipe'), timeout=300)
                 print('re-run:', r.rc, r.sig, r.timeout, r.crash_key(w['tool']) if r.abnormal else 'terminates normally')
                 print(r.stderr.decode('latin1')[-1500:])
                 cleanup_scratch(wd)
